@@ -5,7 +5,7 @@ SPEC = dict(
     props_extra=[('Props/C06Steps.v', 'Props.C06Steps'), ('Props/C06LinMid.v', 'Props.C06LinMid')],
     proof_files=['Proofs/StepsFloat.v', 'Proofs/StepsSeg.v', 'Proofs/StepsMono.v', 'Proofs/CurveLinMid.v', 'Model/Curves.v', 'Proofs/CurveFloat.v', 'Proofs/CurveFn.v', 'Proofs/CurvePid.v', 'Proofs/CurveLin.v',
                  'Proofs/CurveLinMono.v', 'Proofs/CurvePidRange.v', 'Proofs/CurveSteps.v', 'Proofs/CurveMono.v', 'Drv/Curves.v'],
-    tie_vo=['Proofs/LeafTie.vo'],
+    tie_vo=['Proofs/LeafTie.vo', 'Proofs/LeafTie2_functionAgg.vo', 'Proofs/LeafTie2_linearEval.vo', 'Proofs/LeafTie2_PidLoop.vo'],
     drivers=[dict(name='curves', drv_mod='Drv.Curves', drv_file='Drv/Curves.v', shard=150,
                   args={'quick': ['n=1600'], 'thorough': ['n=30000']}, timeout={'quick': 600, 'thorough': 3000})],
     rule='seeded streams over real curves (curves.NewSpeedCurve + RegisterSpeedCurve) and sensors in the real registries: '
